@@ -5,7 +5,8 @@ usage: baseline.py [repo_dir]"""
 import json, os, subprocess, sys, tempfile
 import xml.etree.ElementTree as ET
 
-repo = sys.argv[1] if len(sys.argv) > 1 else "/repo"
+args = [a for a in sys.argv[1:] if not a.startswith("-")]
+repo = args[0] if args else "/repo"
 base = json.load(open("/root/.vp/BASELINE.json"))
 fd, xml = tempfile.mkstemp(suffix=".junit.xml")
 os.close(fd)
